@@ -57,6 +57,25 @@ def data_bytes(n, seed):
     return random.Random(seed).randbytes(n) if n else b""
 
 
+def stream_of(data, salt=0):
+    """A data-set parameter as a caller may legally hand it over: a BytesIO holding `data`, with its position wherever
+    the caller left it - freshly constructed (0), filled with write() (at the end), partly or completely read.  What the
+    parameter MEANS is the stream's content (`getvalue()`), whatever the position."""
+    s = BytesIO()
+    s.write(data)
+    how = (len(data) * 7 + salt) % 4
+    if how == 0:
+        s.seek(0)
+    elif how == 1:
+        pass  # built with write(): positioned at the end
+    elif how == 2:
+        s.seek(len(data) // 2)
+    else:
+        s.seek(0)
+        s.read()
+    return s
+
+
 class Built:
     """A real message built from a real primitive for one case."""
 
@@ -77,7 +96,7 @@ class Built:
         self.path = None
         shape = case["shape"]
         if shape in ("stream", "raw") and kw:
-            setattr(prim, kw, BytesIO(self.data))
+            setattr(prim, kw, stream_of(self.data, case["seed"]))
             self.ds_param = self.data
         if shape in ("file", "raw"):
             junk = data_bytes(case["off"], case["seed"] + 1)
@@ -86,7 +105,9 @@ class Built:
             with os.fdopen(fd, "wb") as f:
                 f.write(content)
             off = case["off"] + (len(content) + case.get("pastby", 5) if case.get("past") else 0)
-            prim._dataset_path = (self.path, off)
+            from pathlib import Path
+
+            prim._dataset_path = (Path(self.path), off)  # a Path, as send_c_store hands it over
             self.path_param = [content, off]
             self.file_bytes = content[off:]
         self.prim = prim
